@@ -482,16 +482,52 @@ def _sub(fn, *args):
 
 def _setup_exact(et, names=("t",), wit=None):
     c = Ctx(list(names), nspare=6, witness=wit or {"t": F(1, 97)})
+    import EasyFEA.FEM.Operators.NonLinear as NLm0
+    cc = getattr(NLm0, "__clenshaw_curtis")
+    for k in (1, 2, 3, 5, 9):
+        cc(k)                       # Clenshaw-Curtis tables computed by the unmodified code in floats (lru_cache), read exactly afterwards
     NPs = symrun.install(c)
     import EasyFEA.Models.HyperElastic._laws as L
     import EasyFEA.Models.HyperElastic._state as S
     import EasyFEA.FEM.Operators.NonLinear as NLm
     for m in (L, S, NLm):
         m.np = NPs
+    _exact_defaults(c)
     pre, connect = patches.two_element_patch(et, 0)
     pre = [[p_ if isinstance(p_, F) else F(p_) for p_ in p] for p in pre]
     g = fem.exact_group(et, pre, connect)
     return c, NPs, g, pre, connect
+
+
+_EXACT_STATE = {}
+
+
+def _exact_defaults(c):
+    """default arguments `coef=np.sqrt(2)` were evaluated at import time by the real numpy (a float): replaced by the exact sqrt(2)."""
+    import EasyFEA.Models._utils as MU
+    r2 = c.sqrt_rational(F(2))
+    for name in dir(MU):
+        f = getattr(MU, name)
+        if callable(f) and getattr(f, "__defaults__", None):
+            f.__defaults__ = tuple(r2 if (isinstance(d, float) and abs(d - 2 ** 0.5) < 1e-15) else d for d in f.__defaults__)
+
+
+
+def _exact_state_cls(NPs):
+    """HyperElasticState re-assembled from the AST with exact literals (2 ** (-1 / 2) is 1/sqrt 2, not a float)."""
+    if "cls" not in _EXACT_STATE:
+        g = sx.module_globals("EasyFEA.Models.HyperElastic._state", np=NPs)
+        _EXACT_STATE["cls"] = extract.assemble_class(STATE, "HyperElasticState", lambda path: g, exact=True)
+    return _EXACT_STATE["cls"]
+
+
+def _mk_state(NPs, g, u, matrixType):
+    cls = _exact_state_cls(NPs)
+    st = object.__new__(cls)
+    object.__setattr__(st, "_HyperElasticState__groupElem", g)
+    object.__setattr__(st, "_HyperElasticState__displacement", u)
+    object.__setattr__(st, "_HyperElasticState__matrixType", matrixType)
+    return st
 
 
 def _vec(vals):
@@ -534,6 +570,8 @@ def ob_operator(kind, et, seed):
     nloc = rows.shape[1]
     ncheck = 0
     dirs = range(nloc) if nloc <= 8 else sorted(rnd.sample(range(nloc), 6))
+    if kind.startswith("gonzalez") and et != "TRI3":
+        dirs = sorted(rnd.sample(range(nloc), 2))        # rational functions of t with many Gauss points: two seeded unit directions per element
     for e in range(g.Ne):
         for a in dirs:
             d = [F(0)] * nd
@@ -541,16 +579,16 @@ def ob_operator(kind, et, seed):
             u = _vec([u1[i] + t * d[i] for i in range(nd)])
             scale = F(1)
             if kind == "pointwise":
-                K, R = NonLinear.SecondPiolaKirchhoffStressTensor(mat, HyperElasticState(g, u, MatrixType.rigi))
+                K, R = NonLinear.SecondPiolaKirchhoffStressTensor(mat, _mk_state(NPs, g, u, MatrixType.rigi))
             elif kind in ("gonzalez", "gonzalez.inconsistent"):
                 umid = _vec([(un[i] + u1[i] + t * d[i]) / 2 for i in range(nd)])
-                sts = [HyperElasticState(g, _vec(un), MatrixType.rigi), HyperElasticState(g, umid, MatrixType.rigi), HyperElasticState(g, u, MatrixType.rigi)]
+                sts = [_mk_state(NPs, g, _vec(un), MatrixType.rigi), _mk_state(NPs, g, umid, MatrixType.rigi), _mk_state(NPs, g, u, MatrixType.rigi)]
                 K, R = NonLinear.GonzalezStressTensor(mat, *sts, True)
                 scale = F(1, 2)
             elif kind.startswith("quadrature"):
                 npts, coefK = {"quadrature.1": (1, F(1, 2)), "quadrature.2": (2, F(1, 2)), "quadrature.3": (3, F(1, 2)), "quadrature.newmark": (3, F(1))}[kind]
                 ut = _vec([(un[i] + u1[i] + t * d[i]) / 2 for i in range(nd)]) if coefK == F(1, 2) else u
-                sts = [HyperElasticState(g, _vec(un), MatrixType.rigi), HyperElasticState(g, ut, MatrixType.rigi), HyperElasticState(g, u, MatrixType.rigi)]
+                sts = [_mk_state(NPs, g, _vec(un), MatrixType.rigi), _mk_state(NPs, g, ut, MatrixType.rigi), _mk_state(NPs, g, u, MatrixType.rigi)]
                 K, R, _ = NonLinear.TimeQuadratureStressTensor(mat, *sts, coefK, npts)
                 scale = coefK
             elif kind == "active":
@@ -558,15 +596,16 @@ def ob_operator(kind, et, seed):
                 T = np.zeros((g.Ne, np.asarray(g.Get_weightedJacobian_e_pg(MatrixType.rigi)).shape[1], 3))
                 T[..., 0], T[..., 1] = 0.6, 0.8
                 import EasyFEA.Models.HyperElastic._laws as L
-                mat.Set_active_stress_vec(_lift3(NPs, [F(3, 5), F(4, 5), F(0)], T.shape))
-                K, R = NonLinear.ActiveStressTensor(mat, HyperElasticState(g, u, MatrixType.rigi))
+                from EasyFEA.FEM._linalg import FeArray
+                mat.Set_active_stress_vec(FeArray.asfearray(_lift3(NPs, [F(3, 5), F(4, 5), F(0)], T.shape)))
+                K, R = NonLinear.ActiveStressTensor(mat, _mk_state(NPs, g, u, MatrixType.rigi))
             elif kind in ("kelvinvoigt.K", "kelvinvoigt.C"):
                 mat.eta = 0.3
                 if kind == "kelvinvoigt.K":
-                    K, R, Cd = NonLinear.KelvinVoigtDamping(mat, HyperElasticState(g, u, MatrixType.rigi), _vec(vv))
+                    K, R, Cd = NonLinear.KelvinVoigtDamping(mat, _mk_state(NPs, g, u, MatrixType.rigi), _vec(vv))
                 else:
                     vt = _vec([vv[i] + t * d[i] for i in range(nd)])
-                    Kg, R, K = NonLinear.KelvinVoigtDamping(mat, HyperElasticState(g, _vec(u1), MatrixType.rigi), vt)
+                    Kg, R, K = NonLinear.KelvinVoigtDamping(mat, _mk_state(NPs, g, _vec(u1), MatrixType.rigi), vt)
             else:
                 raise Unsupported(kind)
             K, R = np.asarray(K), np.asarray(R)
@@ -694,7 +733,7 @@ def ob_energy(kind, et, seed):
     mat = SaintVenantKirchhoff(dim, 1.5, 0.75, K=0.25 if kind == "gonzalez" else 0.0, thickness=0.5)
     un, u1 = _rand_u(rnd, nd), _rand_u(rnd, nd)
     umid = [(a + b) / 2 for a, b in zip(un, u1)]
-    sts = [HyperElasticState(g, _vec(x), MatrixType.rigi) for x in (un, umid, u1)]
+    sts = [_mk_state(NPs, g, _vec(x), MatrixType.rigi) for x in (un, umid, u1)]
     if kind == "gonzalez":
         K, R = NonLinear.GonzalezStressTensor(mat, *sts, True)
     else:
@@ -925,7 +964,8 @@ def _native_operator(kind, et, seed=0):
             nPg = np.asarray(g.Get_weightedJacobian_e_pg(MatrixType.rigi)).shape[1]
             T = np.zeros((g.Ne, nPg, 3))
             T[..., 0], T[..., 1] = 0.6, 0.8
-            mat.Set_active_stress_vec(T)
+            from EasyFEA.FEM._linalg import FeArray
+            mat.Set_active_stress_vec(FeArray.asfearray(T))
             return NonLinear.ActiveStressTensor(mat, S(u)) + (1.0,)
         if kind == "kelvinvoigt.K":
             mat.eta = 0.3
@@ -1095,7 +1135,9 @@ def build(tier, seed):
         obs.append(Ob(f"C18.law.{law}.ref", ob_law_ref, (law,), "P", (f"{LAWS}::{law}.Compute_W", f"{LAWS}::{law}.Compute_dWde"), clause="W == 0 and stress == 0 at C == I", timeout=600))
     kinds = ["pointwise", "gonzalez", "quadrature.1", "quadrature.2", "quadrature.3", "quadrature.newmark", "active", "kelvinvoigt.K", "kelvinvoigt.C"]
     for kind in kinds:
-        ets = ["TRI3", "TETRA4"] + (["QUAD4"] if kind in ("pointwise", "gonzalez") or thorough else []) + (["TRI6", "HEXA8", "PRISM6"] if thorough and kind in ("pointwise", "gonzalez", "quadrature.3") else [])
+        ets = ["TRI3", "TETRA4"] + (["QUAD4"] if kind == "pointwise" or thorough else []) + (["TRI6", "HEXA8", "PRISM6"] if thorough and kind in ("pointwise", "quadrature.3") else [])
+        if kind == "gonzalez" and not thorough:
+            ets = ["TRI3"]                 # rational functions of t: minutes per element type; the others run in the thorough tier and natively (finite differences) in both
         for et in ets:
             obs.append(Ob(f"C18.op.{kind}.{et}", ob_operator, (kind, et, seed), "B", (f"{NL}::{_opname(kind)}",), bound=f"2-element {et} patch, one seeded rational state, unit directions",
                           clause="K_e(t) d == d/dt R_e(t) as polynomials in t", timeout=3600))
